@@ -21,6 +21,8 @@ import (
 //	hkeep    Height only, KeepAspectRatio                -> width from the pixel ratio
 //	wonly    Width only, no KeepAspectRatio              -> not specified by the statement: extent not judged
 //	honly    Height only, no KeepAspectRatio             -> not judged
+//	empty    an ImageSize with no dimension set          -> no size given: the pixel size
+//	emptykeep  the same with KeepAspectRatio set
 type Size struct {
 	Mode string  `json:"m"`
 	W    float64 `json:"w,omitempty"`
@@ -37,6 +39,7 @@ type TplImg struct {
 	Alt   string  `json:"alt,omitempty"`
 	Title string  `json:"title,omitempty"`
 	Slot  int     `json:"slot,omitempty"` // via file / details-file: 0 a path of its own, k>0 the case's k-th reused path (see Step.Slot)
+	Cfg   int     `json:"cfg,omitempty"`  // k>0: the case's k-th shared *ImageConfig object (see Step.Cfg)
 }
 
 // Step is one call of the history.
@@ -65,6 +68,21 @@ type TplImg struct {
 //	           (scheme N) -> OpenFromMemory: the package of another producer with the same content
 //	save       ToBytes + oracle
 //	header, footer, listitem, para   other calls (the first three create relationships)
+//
+// Widened domain (widen.go):
+//
+//	resize     ResizeImage(handle Ref of the current document object, Size): the picture's size configuration becomes Size
+//	setlook    SetImagePosition / SetImageWrapText / SetImageAltText / SetImageTitle / SetImageAlignment (N selects) on handle Ref:
+//	           no rule of the statement covers them, the picture must keep its bytes and its extent
+//	imgnoelem  AddImageFromDataWithoutElement: a media part and a relationship, no picture
+//	badadd     an addition that cannot succeed (N: missing file, empty file, text file, cell out of range, config without source): whatever it returns, no picture appears and the later ones are right
+//	swap       the case's two documents change places: the calls that follow go to the other document (new at first use)
+//
+// Cfg (img, imgfile, imgnoelem, TplImg): k>0 = the call passes the case's k-th shared *ImageConfig object, created from Size/Look
+// of the first step that names k; later steps that name k pass the same object (their own Size/Look are not used).
+// Med/MedK (renumber): how the other producer named the media parts (mediaedit.go).
+// Merge (render): the entries of the step are set in a TemplateData of their own that is Merge()d into the render's TemplateData;
+// Clear (render): TemplateData.Clear() is called on the render's TemplateData before the entries are set.
 type Step struct {
 	K     string   `json:"k"`
 	Img   *gen.Img `json:"img,omitempty"`
@@ -81,6 +99,12 @@ type Step struct {
 	Slot  int      `json:"slot,omitempty"`
 	Eng   int      `json:"eng,omitempty"`
 	TD    int      `json:"td,omitempty"`
+	Ref   int      `json:"ref,omitempty"`
+	Cfg   int      `json:"cfg,omitempty"`
+	Med   int      `json:"med,omitempty"`
+	MedK  int      `json:"medk,omitempty"`
+	Merge bool     `json:"merge,omitempty"`
+	Clear bool     `json:"clear,omitempty"`
 }
 
 type Case struct {
@@ -90,17 +114,22 @@ type Case struct {
 // ---- reference model ------------------------------------------------------------------------------------
 
 type pic struct {
-	hash   string // sha256 of the payload
-	n      int    // payload length
-	w, h   int    // pixel size
-	format string
-	size   Size
-	src    string // body | cell | tpl-body | tpl-cell
-	name   string
-	op     int
-	seenOK bool // resolved correctly at an earlier observation
-	slot   int  // >0: the bytes were read from the case's slot-th reused path
-	stale  bool // template picture whose TemplateData entry was set by an earlier render step
+	hash    string // sha256 of the payload
+	n       int    // payload length
+	w, h    int    // pixel size
+	format  string
+	size    Size
+	src     string // body | cell | tpl-body | tpl-cell
+	name    string
+	op      int
+	seenOK  bool   // resolved correctly at an earlier observation
+	slot    int    // >0: the bytes were read from the case's slot-th reused path
+	stale   bool   // template picture whose TemplateData entry was set by an earlier render step
+	cfg     int    // >0: made with the case's cfg-th shared *ImageConfig object
+	tail    bool   // the payload has bytes after the end-of-image marker
+	base    string // identifies the payload without its tail
+	orig    *Size  // resized pictures: the size configuration of the addition
+	resized int    // step that resized the picture last (-1/0: never; steps are numbered from 0, a resize is never step 0)
 }
 
 type mpara struct {
@@ -131,6 +160,13 @@ type model struct {
 // payload memoises the encoded image of a generated Img (pure function of the value).
 var payloadCache = map[gen.Img][]byte{}
 
+// Pat carries two things: the low tailShift bits select the pixels (gen.Img.Bytes), the bits above them say how many bytes
+// follow the end-of-image marker of the encoded file (image files with trailing bytes are common - editors append metadata -
+// and all three decoders stop at the marker). Two payloads that differ only in the tail are prefixes of one another.
+const tailShift = 21
+
+const tailBytes = "\x00wzverif tail "
+
 func payload(im gen.Img) []byte {
 	key := im
 	key.Name = ""
@@ -140,10 +176,26 @@ func payload(im gen.Img) []byte {
 	if len(payloadCache) > 4096 {
 		payloadCache = map[gen.Img][]byte{}
 	}
-	b := im.Bytes()
+	base := im
+	base.Pat = im.Pat & (1<<tailShift - 1)
+	b := base.Bytes()
+	if t := im.Pat >> tailShift; t > 0 {
+		b = append([]byte(nil), b...)
+		for j := 0; j < t*5; j++ {
+			b = append(b, tailBytes[j%len(tailBytes)])
+		}
+	}
 	payloadCache[key] = b
 	return b
 }
+
+func tailOf(im gen.Img) (bool, string) {
+	return im.Pat>>tailShift > 0, fmt.Sprintf("%s/%d/%d/%d", im.Fmt, im.W, im.H, im.Pat&(1<<tailShift-1))
+}
+
+// given is what the library receives: a copy, so that nothing the library does to the slice (during the call or later)
+// reaches the reference bytes of the model.
+func given(im gen.Img) []byte { return append([]byte(nil), payload(im)...) }
 
 func hashOf(b []byte) string {
 	h := sha256.Sum256(b)
@@ -382,7 +434,7 @@ func ruleFor(p *pic) extentRule {
 	const mm = 36000.0
 	eps := func(v float64) float64 { return 1 + v*1e-9 } // floor/round/ceil all accepted
 	switch p.size.Mode {
-	case "nil", "none":
+	case "nil", "none", "empty", "emptykeep":
 		return extentRule{judged: true, exact: true, cx: float64(p.w) * 9525, cy: float64(p.h) * 9525, why: "no size given: pixel size at 96 dpi (9525 EMU per pixel)"}
 	case "both", "bothkeep":
 		return extentRule{judged: true, cx: p.size.W * mm, cy: p.size.H * mm, tolX: eps(p.size.W * mm), tolY: eps(p.size.H * mm), why: "width and height given: 36000 EMU per mm"}
@@ -409,7 +461,7 @@ type analysis struct {
 // relCreating says whether a step may add a relationship to the main part.
 func relCreating(s Step) bool {
 	switch s.K {
-	case "img", "imgfile", "cellimg", "cellimgd", "cellimgf", "render", "header", "footer", "listitem":
+	case "img", "imgfile", "cellimg", "cellimgd", "cellimgf", "render", "header", "footer", "listitem", "imgnoelem", "badadd":
 		return true
 	}
 	return false
@@ -421,12 +473,15 @@ func sparseScheme(n int) bool { return n == schemeShift || n == schemeSpread || 
 func analyze(c Case) analysis {
 	a := analysis{skipBodyAt: -1, skipCellAt: -1, sparseAt: -1}
 	m := &model{}
+	other := &model{}
 	tt := &tplTrack{}
 	for i, s := range c.Steps {
 		if a.sparseAt >= 0 && relCreating(s) {
 			a.relAfterSparse = true
 		}
 		switch s.K {
+		case "swap":
+			m, other = other, m
 		case "renumber":
 			if sparseScheme(s.N) && a.sparseAt < 0 {
 				a.sparseAt = i
@@ -456,7 +511,9 @@ func analyze(c Case) analysis {
 func (m *model) apply(s Step, i int) (*pic, bool) {
 	mk := func(src string, size Size) *pic {
 		b := payload(*s.Img)
-		return &pic{hash: hashOf(b), n: len(b), w: s.Img.W, h: s.Img.H, format: s.Img.Fmt, size: size, src: src, name: s.Img.Name, op: i}
+		p := &pic{hash: hashOf(b), n: len(b), w: s.Img.W, h: s.Img.H, format: s.Img.Fmt, size: size, src: src, name: s.Img.Name, op: i}
+		p.tail, p.base = tailOf(*s.Img)
+		return p
 	}
 	sel := func(k, n int) int {
 		v := 0
